@@ -381,6 +381,9 @@ def rule_id_corpus(repo, tier, R):
                                 continue
                             R.check(bool(e), "C16-R6", "corpus-reject|%s" % w.name, "rejected like the same declaration with the disabled items deleted: %s" % decl[:140],
                                     "declaration `%s` is accepted, but the same declaration with its cfg-disabled items deleted is rejected (%s): a disabled item changed the outcome" % (decl[:300], eref[0][:100]), None)
+                            # (a declaration whose enabled items would carry a duplicate or overflowing id is rejected whatever else is written in it)
+                            R.check(bool(e), "C15-R9", "corpus-cfg-reject|%s" % w.name, "rejected like the same declaration with the disabled items deleted: %s" % decl[:140],
+                                    "declaration `%s` is accepted, but the same declaration with its cfg-disabled items deleted is rejected (%s): a disabled item changed the outcome" % (decl[:300], eref[0][:100]), None)
                             continue
                         # rejected is rejected: the wording of the diagnostic is not part of the property (it is recorded)
                         ok = bool(e)
